@@ -12,6 +12,21 @@
 #include "bitserializer/serialization_detail/serialization_options.h"
 #include "bitserializer/serialization_detail/errors_handling.h"
 
+#if defined(BITSERIALIZER_VERIF)
+// Verification hook: life cycle events of archive scopes and of the deferred error (off unless a test installs a listener)
+namespace BitSerializer::Verif
+{
+	using ScopeEventListener = void(*)(const char* event, const void* object, const void* other);
+	inline ScopeEventListener& GetScopeEventListener() noexcept { static ScopeEventListener listener = nullptr; return listener; }
+	inline void EmitScopeEvent(const char* event, const void* object, const void* other = nullptr) noexcept {
+		if (const auto listener = GetScopeEventListener()) listener(event, object, other);
+	}
+}
+#define BITSERIALIZER_VERIF_SCOPE_EVENT(...) ::BitSerializer::Verif::EmitScopeEvent(__VA_ARGS__)
+#else
+#define BITSERIALIZER_VERIF_SCOPE_EVENT(...) ((void)0)
+#endif
+
 namespace BitSerializer
 {
 	/// <summary>
@@ -77,6 +92,7 @@ namespace BitSerializer
 		/// </summary>
 		void SetDeferredError(std::exception_ptr error) noexcept
 		{
+			BITSERIALIZER_VERIF_SCOPE_EVENT("park", this);
 			if (!mDeferredError) {
 				mDeferredError = std::move(error);
 			}
@@ -85,6 +101,7 @@ namespace BitSerializer
 		void OnFinishSerialization()
 		{
 			if (mDeferredError) {
+				BITSERIALIZER_VERIF_SCOPE_EVENT("rethrow", this);
 				std::rethrow_exception(std::exchange(mDeferredError, nullptr));
 			}
 			if (!mErrorsMap.empty()) {
